@@ -40,7 +40,15 @@ IsZeroV(g) ==
     [] g.k = "struct" -> \A i \in 1..Len(g.c) : IsZeroV(g.c[i].c[1])
     [] g.k = "time"   -> g.zero
     [] g.k \in NullKinds -> ~g.valid
+    [] g.k = "uint"   -> AllZero(g.b)
+    [] g.k = "array"  -> \A i \in 1..Len(g.c) : IsZeroV(g.c[i])
+    [] g.k = "other"  -> g.zero
     [] OTHER -> FALSE
+
+\* every bool in the value holds 0 or 1 (a bool variable holding any other byte is not a Go value)
+RECURSIVE BoolsValid(_)
+BoolsValid(g) == IF g.k = "bool" THEN g.b \in {<<0>>, <<1>>}
+                 ELSE IF "c" \in DOMAIN g THEN \A i \in 1..Len(g.c) : BoolsValid(g.c[i]) ELSE TRUE
 
 \* write direction, nullable position: must the value be the null branch / the non-null branch?
 ScalarKinds == {"bool", "int", "f32", "f64", "string", "bytes"}
